@@ -250,11 +250,11 @@ def nontrivial(case):
 
 
 def db_check(pid, tier, seed, profile, n_quick, n_thorough, prop_module, claims_note, extra_cov=None, direct=None, configs=CONFIGS, kwargs_for=None,
-             extra_cases=()):
+             extra_cases=(), pre=None, extra_targets=()):
     """generic driver for the properties decided on the database-level model"""
     ck = Check(pid, tier, seed)
     tf = use_impl()
-    b = ck.build_proofs(prop_module, extra_targets=["Run.vo", "Refinement.vo"])
+    b = ck.build_proofs(prop_module, pre=pre, extra_targets=["Run.vo", "Refinement.vo", *extra_targets])
     n = n_quick if tier == "quick" else n_thorough
     corpus = load_corpus(pid)
     res = run_tie(ck, tf, n, profile, configs=configs, corpus=corpus, kwargs_for=kwargs_for, extra_cases=extra_cases)
